@@ -2238,6 +2238,10 @@ def c10_cases(rng, nforests, max_files):
     meta[cases[-1]] = ("errloc", (b"top.cfg", 2), None)
     cases.append("\n".join(forest_script(b"z = 0;\n@include \"x\"\n", {}, "readf", ["incfn fail %s" % hx(b"custom failure")])) + "\n")
     meta[cases[-1]] = ("errloc", (b"top.cfg", 2), None)
+    # later path of a multi-path include cannot be opened (known finding F13 on the unchanged tree)
+    cases.append("\n".join(forest_script(b"\n\n@include \"x\"\n", {b"m1.cfg": b"q = 1;\n\n\n"}, "readf",
+                                         ["incfn multi %s,%s" % (hx(b"m1.cfg"), hx(b"m2missing.cfg"))])) + "\n")
+    meta[cases[-1]] = ("errloc", (b"top.cfg", 3), None)
     return cases, meta
 
 
@@ -2317,7 +2321,7 @@ def run_c10(ctx):
     r = run_single(runner, w)
     e = next((l for l in r["impl"] if l.startswith("E ")), "")
     f = e.split(" ")
-    if len(f) >= 5 and f[3] != "-" and unhx(f[3]) == b"b":
+    if len(f) >= 5 and f[3] != "-" and unhx(f[3]) == b"b" and not any(h.startswith("F13") for h in res.known_hits):
         res.known_hits.append("F13: a later, unopenable path of a multi-path include is reported at the missing file "
                               "(file 'b', line %s) instead of at the directive (line 3)" % f[4])
     return res
